@@ -137,7 +137,7 @@ def mps_sample_gauge(ctx) -> None:
         n += 1
         orth = [e for e in p.events if e.kind == "call" and e.name.endswith("MPS.orthogonalize") and strip_typed(e.recv) == ("self",)]
         ok = bool(orth) and is_const(orth[0].args.get("desired_orthogonality_center", ("default", ("const", 0))), 0) and \
-            p.events.index(orth[0]) == min(i for i, e in enumerate(p.events) if e.kind == "call")
+            p.events.index(orth[0]) <= min([i for i, e in enumerate(p.events) if e is not orth[0] and _touches_factors(e)] or [len(p.events)])
         guarded = bool(orth) and any("orthogonality_center" in show(c) for c, t in p.cond_log[: orth[0].ncond])
         if not ok or guarded:
             bad += 1
@@ -146,3 +146,14 @@ def mps_sample_gauge(ctx) -> None:
            "every path of MPS.sample starts by orthogonalize(0), whatever centre the state claims" if bad == 0 else
            f"{bad} path(s) of MPS.sample draw from factor 0 without first moving the orthogonality centre there: a state "
            f"whose centre is known to be elsewhere is sampled from a wrong (non-Born) distribution")
+
+
+def _touches_factors(e) -> bool:
+    """The event reads the MPS factors (directly or through a method of the state)."""
+    terms = list(e.pos) + [v for _, v in e.kw] + list(e.args.values()) + ([e.recv] if e.recv is not None else []) + \
+        ([e.value] if e.value is not None else [])
+    for t in terms:
+        if isinstance(t, tuple) and (contains(t, lambda x: x == ("attr", ("self",), "factors")) or
+                                    (e.kind == "call" and e.recv is not None and strip_typed(e.recv) == ("self",))):
+            return True
+    return False
